@@ -40,6 +40,8 @@ func init() {
 		rtPath + ".Not":          func(fr *frame, a []value) value { return fr.i.vNot(a[0]) },
 		rtPath + ".Implies":      func(fr *frame, a []value) value { return fr.i.vOr(fr.i.vNot(a[0]), a[1]) },
 		rtPath + ".Debug":        extDebug,
+		rtPath + ".OnSortSlice":  func(fr *frame, a []value) value { fr.i.onSortSlice = a[0]; return nil },
+		rtPath + ".EndPath":      func(fr *frame, a []value) value { panic(pathEnd{"harness-end"}) },
 		rtPath + ".Ite":          extIte,
 		rtPath + ".IteU64":       extIte,
 
@@ -701,6 +703,10 @@ func extSortSlice(fr *frame, args []value) value {
 			store(elemT, &s[b], s[b-1])
 			store(elemT, &s[b-1], tmp)
 		}
+	}
+	if cb := i.onSortSlice; cb != nil {
+		i.onSortSlice = nil
+		call(i, fr, 0, cb, []value{it})
 	}
 	return nil
 }
